@@ -8,6 +8,7 @@ import sys
 from driver.common import Case
 
 ID = "C20"
+NEEDS_BINARY = True      # `goalign build weightboot` is run on the binary built from the working tree
 LEAN_MODULES = ["Gv.Props.C20"]
 REQUIRED_THEOREMS = ["Gv.Props.C20." + n for n in [
     # samplers: every tape
@@ -71,7 +72,9 @@ RULE = ("weight builders BuildWeightsGamma / BuildWeightsDirichlet for every len
         "shape in {0.01, 0.1, 0.5, 0.99, 1, 1.01, 2, 10, 100} and with mixed shapes, 3..40 parameters, factors 1 / n / 1000.5; invalid parameter vectors "
         "(<= 2 entries, zero, negative, NaN, +Inf entries); Dirichlet1; 40..200 successive stats.Gamma draws per shape (three sampler branches); "
         "DiscreteGamma for shapes on a grid of [0.01, 100] x category counts 2..32; IncompleteGamma on ascending x grids (0, subnormal, 1e-300 .. 1e100, "
-        "fine grids around the branch switch x = max(1, alpha)) for alpha in [0.01, 101], plus single huge x; non-trivial = valid parameters in the quantifier")
+        "fine grids around the branch switch x = max(1, alpha)) for alpha in [0.01, 101], plus single huge x; command line `goalign build weightboot [-n k] --seed s` "
+        "on the built binary (lengths 1..300, 0..4 replicates from the one stream): every printed weight within the rounding of `%f` (5.1e-7) of the exact "
+        "replay of BuildWeightsDirichlet from the seed, the layout (tabs, one line per replicate) exactly; non-trivial = valid parameters in the quantifier")
 
 SHAPES = [0.01, 0.1, 0.5, 0.99, 1.0, 1.01, 2.0, 10.0, 100.0]
 MAXDEV = {"sampler": 0.0, "numeric": 0.0}
@@ -85,9 +88,27 @@ def fbl(xs):
     return ",".join(fb(x) for x in xs) if xs else "_"
 
 
+def gen_weightboot(rng, count):
+    """`goalign build weightboot [-n k] --seed s`: the printed weights (`%f`, tab separated, one line per replicate) against
+    the exact replay of BuildWeightsDirichlet from the seed: lengths 1..300 (no vector for L <= 2: empty lines), 0..4
+    replicates drawn from the one stream, default number of replicates, flags in any order"""
+    for _ in range(count):
+        L = rng.choice([1, 2, 3, 3, 4, 5, 8]) if rng.random() < 0.3 else rng.randint(3, 300 if rng.random() < 0.2 else 60)
+        n = rng.randint(1, 4)
+        rows = [("s%d" % i, "".join(rng.choice("ACGT-N") for _ in range(L))) for i in range(n)]
+        st = "".join(">%s|%s|" % r for r in rows)
+        groups = [["--seed", str(rng.randint(0, 2 ** 31 - 1) if rng.random() < 0.9 else rng.choice([0, 1, 2 ** 40 + 3]))]]
+        if rng.random() < 0.75:
+            groups.append([rng.choice(["-n", "--nboot"]), str(rng.choice([0, 1, 2, 2, 3, 4]))])
+        rng.shuffle(groups)
+        yield Case("cli_lib", [st, "build", "weightboot"] + [x for g in groups for x in g], L >= 3, "cli-weightboot")
+
+
 def gen(rng, tier):
     quick = tier == "quick"
     yield Case("c20consts", [], True, "consts")
+    for c in gen_weightboot(rng, 60 if quick else 600):
+        yield c
 
     def seed():
         return rng.randint(0, 2 ** 31 - 1) if rng.random() < 0.9 else rng.choice([0, 1, -5, 2 ** 31 - 1, 2 ** 40 + 3])
